@@ -50,6 +50,7 @@ type Interp struct {
 	pos          int
 	newWork      [][]int64
 	pc           []*Term
+	sortSeq      int               // sort.Slice calls seen on this path (contract model, see intrinsics.go)
 	symNames     []string          // smt names, in creation order
 	symIDs       map[string]string // smt name -> id
 	steps        int
